@@ -2,6 +2,7 @@
 import glob
 import os
 import random
+from fractions import Fraction as Fr
 
 import numpy as np
 
@@ -22,8 +23,13 @@ RULE = ("valid stream: every task's valid (reference, estimate) generator incl. 
         "(InvalidChordException for labels), never return a score, never another exception type")
 ASSUMPTIONS = ["fault classes are those a validator names or raises for (DESIGN §5 C14 scope rule)",
                "NaN values and non-array containers are not fault classes of this property"]
-UNPROVED = ["totality of every metric body on valid input is established by the oracle, not by a theorem, except for "
-            "the validators (Props/C14.lean)"]
+UNPROVED = ["totality of the metric bodies on valid input is a theorem for the validators (Props/C14.lean) and for the "
+            "models of melody, multipitch, transcription + transcription_velocity, the segment labelling metrics and "
+            "the chord interval scores (Props/C14_<Task>.lean, with the escapes of the unchanged code refuted from "
+            "witnesses: IndexError on empty melody series / short voicing arrays / empty chord reference / "
+            "out-of-range pairings, OverflowError on hop = 0); for the other tasks (beat, onset, boundary detection, "
+            "pattern, alignment, key, separation, chord.evaluate as a pipeline) it is established by the oracle only, "
+            "except where a task slice proves it"]
 SUITES, _cl = SU.load_all(only=["validators"])
 
 
@@ -103,6 +109,35 @@ VALID_KW = {
 }
 
 
+def vary_timebase(rng, base):
+    """melody / multipitch: reference and estimate need not share a time base (melody.to_cent_voicing resamples the
+    estimate, adds a sample at time 0, extends a series that ends early and trims one that runs long;
+    multipitch.metrics resamples the estimate onto the reference times, frames outside its range are empty): every
+    such input is valid and must be scored (Props/C14_Melody.evaluate_total, C14_Multipitch.metrics_total).  The
+    task generators always use one common time base, so half of the bases get an estimate / reference that ends
+    earlier, starts later, or sits half a hop off the grid."""
+    ref = [list(base["ref"][0]), list(base["ref"][1])]
+    est = [list(base["est"][0]), list(base["est"][1])]
+    n = len(est[0])
+    if n < 2 or rng.random() < 0.5:
+        return base
+    k = rng.randint(1, n - 1)
+    mode = rng.choice(["est_short", "est_late", "ref_short", "ref_late", "est_offset"])
+    if mode == "est_short":
+        est = [est[0][:-k], est[1][:-k]]
+    elif mode == "est_late":
+        est = [est[0][k:], est[1][k:]]
+    elif mode == "ref_short":
+        ref = [ref[0][:-k], ref[1][:-k]]
+    elif mode == "ref_late":
+        ref = [ref[0][k:], ref[1][k:]]
+    else:
+        est = [[T.S(T.F(x) + Fr(1, 16)) for x in est[0]], est[1]]
+    out = dict(base)
+    out["ref"], out["est"] = ref, est
+    return out
+
+
 def gen_valid(task):
     def g(rng, tier, shard, nshards, boost):
         n = (40 if tier == "quick" else 800) * boost
@@ -110,6 +145,8 @@ def gen_valid(task):
         for _ in range(n):
             base = T.TASKS[task].gen(rng) if rng.random() < 0.85 else T.TASKS[task].gen_self(rng)
             base.pop("transform", None)
+            if task in ("melody", "multipitch"):
+                base = vary_timebase(random.Random(rng.randint(0, 10 ** 9)), base)
             for e in entries:
                 if admissible(task, e, base):
                     yield {"task": task, "entry": e, "fault": None, "base": base}
